@@ -249,13 +249,12 @@ func c07RunMode(run *vfRun, c c07Case, mode string) {
 				return
 			}
 			run.Count("aggregations_at_or_after_a_transition_counted", 1)
-			if have < g.thr && b.Round == g.tRound && prevSeen && prevAt == nowN && n.handler != nil &&
-				n.handler.crypto.GetGroup().TransitionTime != common.TimeOfRound(nt.cfg.Period, nt.genesis, g.tRound) {
+			if have < g.thr && b.Round == g.tRound && prevSeen && prevAt == nowN {
 				// the vault is switched by a store callback that runs, in its own goroutine, after the round before the
 				// transition has been stored; a node that is catching up signs and aggregates the transition round in the
 				// very same clock step, and nothing orders the two
 				run.Violation("C07/transition-round-aggregated-with-previous-shares/in-the-step-that-stored-the-round-before",
-					fmt.Sprintf("node %d stored round %d and aggregated the transition round %d within one second of its clock (%d) with its vault not switched yet: it held at most %d partial(s) valid under the new group's polynomial, threshold %d; partials seen: %v", n.pos, b.Round-1, b.Round, nowN, have, g.thr, seen), info)
+					fmt.Sprintf("node %d stored round %d and aggregated the transition round %d within one second of its clock (%d), before the switch callback had run: it held at most %d partial(s) valid under the new group's polynomial, threshold %d; partials seen: %v", n.pos, b.Round-1, b.Round, nowN, have, g.thr, seen), info)
 				return
 			}
 			if have < g.thr {
